@@ -80,6 +80,8 @@ eng_isinst = z3.Function("eng_isinst", smt.Ref, smt.Ref, smt.BoolS)  # isinstanc
 uvalid = z3.Function("uvalid", smt.Ref, smt.TagSet, smt.BoolS)  # unary operation well-formed on a target with these columns
 pj_required = z3.Function("pj_required", smt.Ref, smt.TagSet)  # PartialJoin.columns_required
 opreq = z3.Function("opreq", smt.Ref, smt.TagSet)
+jresolve = z3.Function("jresolve", smt.Ref, smt.TagSet, smt.TagSet, smt.TagSet)  # common columns of a join on operands with these columns
+keys_of = z3.Function("keys_of", smt.TagSet, smt.TagSet)  # the key tags of a column set
 opcols = z3.Function("opcols", smt.Ref, smt.TagSet, smt.TagSet)  # column set after a unary operation on a target with columns T
 fvtp = z3.Function("fvtp", SeqRef.sort, smt.IntS, smt.TagSet)  # free columns of the first i sort terms  # columns a unary operation needs on its target
 
@@ -355,6 +357,7 @@ class Spec:
         stx = A("SortTerm", "expression")
         ax.append(z3.ForAll([s, i], z3.Implies(i >= 0, fvtp(s, i + 1) == z3.SetUnion(fvtp(s, i), fv(stx(at(s, i))))), patterns=[z3.MultiPattern(fvtp(s, i), at(s, i))]))
         ax.append(z3.ForAll([s], fvts(s) == fvtp(s, ln(s)), patterns=[fvts(s)]))
+        ax.append(z3.ForAll([s, i], z3.Implies(z3.And(0 <= i, i < ln(s)), z3.IsSubset(fv(stx(at(s, i))), fvts(s))), patterns=[z3.MultiPattern(fvts(s), at(s, i))]))
         return ax
 
     def definitional_axioms(self) -> list[z3.BoolRef]:
@@ -386,8 +389,17 @@ class Spec:
                             patterns=[sem(op, X)]))
         # bsem per binary operation class
         ax.append(z3.ForAll([op, X, Y], z3.Implies(typ(op) == self.cid("Chain"), bsem(op, X, Y) == s_chain(X, Y)), patterns=[bsem(op, X, Y)]))
-        j_p, j_min = A("Join", "predicate"), A("Join", "min_columns")
-        ax.append(z3.ForAll([op, X, Y], z3.Implies(typ(op) == self.cid("Join"), bsem(op, X, Y) == s_join(j_p(op), j_min(op), X, Y)), patterns=[bsem(op, X, Y)]))
+        j_p, j_min, j_max = A("Join", "predicate"), A("Join", "min_columns"), A("Join", "max_columns")
+        ax.append(z3.ForAll([op, X, Y], z3.Implies(typ(op) == self.cid("Join"), bsem(op, X, Y) == s_join(j_p(op), jresolve(op, rcols(X), rcols(Y)), X, Y)), patterns=[bsem(op, X, Y)]))
+        # natural join: unless explicitly resolved (min == max), the common columns are the key columns both operands have (within max)
+        CX, CY = z3.Const("CX", smt.TagSet), z3.Const("CY", smt.TagSet)
+        tg = z3.Const("tg", smt.Tag)
+        ax.append(z3.ForAll([CX, tg], z3.IsMember(tg, keys_of(CX)) == z3.And(z3.IsMember(tg, CX), is_key(tg)), patterns=[z3.IsMember(tg, keys_of(CX))]))
+        shared = keys_of(z3.SetIntersect(CX, CY))
+        auto = z3.If(smt.OptTagSet.is_ots_none(j_max(op)), shared, z3.SetIntersect(shared, smt.OptTagSet.ots_val(j_max(op))))
+        ax.append(z3.ForAll([op, CX, CY], z3.Implies(typ(op) == self.cid("Join"),
+                                                       jresolve(op, CX, CY) == z3.If(j_max(op) == smt.OptTagSet.ots_some(j_min(op)), j_min(op), auto)),
+                            patterns=[jresolve(op, CX, CY)]))
         ig = A("IgnoreOne", "ignore_lhs")
         ax.append(z3.ForAll([op, X, Y], z3.Implies(typ(op) == self.cid("IgnoreOne"), bsem(op, X, Y) == z3.If(ig(op), Y, X)), patterns=[bsem(op, X, Y)]))
         return ax
